@@ -135,7 +135,7 @@ func (u *Unit) assumeRec(t Term, rec *Rec) {
 		return
 	}
 	for _, q := range rec.Quants {
-		if q.Ex {
+		if q.Ex || q.Neg {
 			continue
 		}
 		if (len(q.Offs) > 0 || len(q.TVars) > 0) && strings.Contains(t, q.Text) {
@@ -476,7 +476,7 @@ func (o *Obligation) instantiate() (Term, []string) {
 	var skolems []skolem
 	if o.rec != nil {
 		for i, q := range o.rec.Quants {
-			if !strings.Contains(goal, q.Text) || q.Ex {
+			if !strings.Contains(goal, q.Text) || q.Ex || q.Neg {
 				continue
 			}
 			if len(q.TVars) > 0 {
@@ -511,6 +511,26 @@ func (o *Obligation) instantiate() (Term, []string) {
 	}
 	if len(cands) > 24 {
 		cands = cands[:24]
+	}
+	// universals in negative position are hypotheses of the goal: strengthen them with their instances (forall == forall /\ instances)
+	if o.rec != nil {
+		for _, q := range o.rec.Quants {
+			if !q.Neg || len(q.Offs) == 0 || !strings.Contains(goal, q.Text) {
+				continue
+			}
+			parts := []Term{q.Text}
+			seenI := map[Term]bool{}
+			for _, off := range q.Offs {
+				for _, c := range cands {
+					inst := instQuant(q, "(- "+c+" "+off+")")
+					if !seenI[inst] {
+						seenI[inst] = true
+						parts = append(parts, inst)
+					}
+				}
+			}
+			goal = strings.ReplaceAll(goal, q.Text, "(and "+strings.Join(parts, " ")+")")
+		}
 	}
 	// existential goals: offer the candidate index terms as witnesses (goal' = goal \/ instances, and instances => goal)
 	if o.rec != nil {
